@@ -963,6 +963,8 @@ def capture_case(rng, sess: Session):
             elif r < 0.85 and depth > 0:
                 ops.append(("close", rng.choice(["flush", "flush", "drop"])))
                 depth -= 1
+            elif r < 0.9 and depth > 0:
+                ops.append(("checkpoint", None))  # the open capture is dumped and cleared; what it held is flushed at its close
             elif r < 0.97:
                 ops.append(("compute", rng.randint(0, 3)))
             else:
@@ -1049,9 +1051,19 @@ def capture_case(rng, sess: Session):
                         else:
                             m, tok = orch._begin_log_capture()
                             stack.append((arg, {"mux": m, "tok": tok}, []))
+                    elif op == "checkpoint":
+                        kind, h, buf = stack[-1]
+                        h.setdefault("held", []).append(h["mux"].dump())
+                        h["mux"].clear()
+                        h.setdefault("held_model", []).append(list(buf))
+                        del buf[:]
                     elif op == "close":
                         kind, h, buf = stack.pop()
                         pairs = h["mux"].dump()
+                        if h.get("held"):
+                            # the chunks taken at the checkpoints come first, in the order they were taken
+                            pairs = [x for chunk in h["held"] for x in chunk] + list(pairs)
+                            buf[:0] = [x for chunk in h["held_model"] for x in chunk]
                         if kind == "use_mux":
                             h["cm"].__exit__(None, None, None)
                         else:
